@@ -33,6 +33,7 @@ RULE = (
     " kept in process-wide objects must not show). 30% of the inputs have"
     " non-uniform return edges (one return of a function only returns to"
     " a proxy)."
+    " 15% of the scenarios have a twin module in the IR (same names); the dump covers it."
 )
 RULE += " 30% of the scenarios also carry two retarget_symbol_uses requests (chained A->B, B->C or converging), registered in permuted order."
 ASSUMPTIONS = [
@@ -94,6 +95,10 @@ def gen_case(rng, tier, index):
             a, b, c = r2.sample(sorted(g.callable_labels), 3)
             g.case["retargets"] = [[a, b], [b, c]] if r2.random() < 0.7 \
                 else [[a, b], [c, b]]
+        # a second module in the IR with the same names (its half of the dump
+        # must not depend on the run either)
+        if r2.random() < 0.15:
+            g.case["bystander"] = "twin"
         cases.append(g.case)
     return {"cases": cases, "tier": tier}
 
